@@ -38,6 +38,7 @@ ASSUMPTIONS = [
     "'hits a scheduled time' is judged with the manager's own rtol/atol",
 ]
 PROBES = [
+    "twin_manager_stepped_in_between",
     "rollback_mode",
     "rolled_back",
     "run_reached_final_time",
@@ -338,7 +339,26 @@ def run_tm_walk(ch, tr: Trace) -> None:
 def _walk(ch, tr, tm, orc, p_fail_num, fault_horizon, aim, k_mode, rollback, exports, tfile):
     prev_failed = False
     first = True
+    # a second manager of another simulation lives in the same process and is stepped in between (now and then):
+    # managers must not share state
+    twin = None
+    if ch.flag(1, 6):
+        try:
+            twin = pp.TimeManager(schedule=[0.0, 50.0, 100.0], dt_init=1.0, dt_min_max=(0.01, 20.0), iter_max=9, iter_optimal_range=(2, 4), recomp_max=50)
+            tr.probe("twin_manager_stepped_in_between")
+        except ValueError:
+            twin = None
     while not tm.final_time_reached():
+        if twin is not None and not twin.final_time_reached():
+            twin.increase_time()
+            twin.increase_time_index()
+            try:
+                if orc.n_attempts % 3 == 2:
+                    twin.compute_time_step(recompute_solution=True)
+                else:
+                    twin.compute_time_step(iterations=1 + orc.n_attempts % 7)
+            except ValueError:
+                twin = None  # the other simulation gave up (its own budget); nothing to do with the walk under study
         if orc.n_attempts >= MAX_ATTEMPTS:
             tr.probe("attempt_cap_reached")
             tr.emit("cap")
